@@ -14,6 +14,7 @@ except Exception as e:
 PY
 (cd lean && lake build Bita bitamodel)
 [ -f harness/Cargo.lock ] || cp /repo/Cargo.lock harness/Cargo.lock
+python3 -c "import sys; sys.path.insert(0, '.'); from vlib import core; core.write_cli_mods()"
 (cd harness && CARGO_TARGET_DIR=/verif/.target RUSTFLAGS="--cfg oll3_bita_verif" cargo build --offline --bins)
 mkdir -p .target && cc -shared -fPIC -O1 -o .target/iofault.so harness/shim/iofault.c -ldl -lpthread
 (cd /repo && CARGO_TARGET_DIR=/verif/.target/repo RUSTFLAGS="--cfg oll3_bita_verif" cargo build --offline --bin bita)
